@@ -7,12 +7,13 @@ import common
 import harness
 import pgncorr
 
-PROP_FILES = ["N2k/Props/C01.lean"] + [f"N2k/Tables/T{k:02d}.lean" for k in range(16)] + ["N2k/Tables/TLk1.lean", "N2k/Tables/TLk3.lean"]
-LEAN_TARGETS = ["N2k.Props.C01", "N2k.Tables.TLk1", "N2k.Tables.TLk3"]
+PROP_FILES = ["N2k/Props/C01.lean", "N2k/Props/C01Float.lean"] + [f"N2k/Tables/T{k:02d}.lean" for k in range(16)] + ["N2k/Tables/TLk1.lean", "N2k/Tables/TLk3.lean"]
+LEAN_TARGETS = ["N2k.Props.C01", "N2k.Tables.TLk1", "N2k.Tables.TLk3", "N2k.Props.C01Float"]
 SUITE_NAMES = ["gen-decoders", "gen-decoder-metadata", "codec-decode-number"]
 ASSUMPTIONS = ["supported field = every kind except the dynamic/variable/ISO-name/decimal/field-index kinds, whose ~40 decoders raise and never return a message",
                "text decoding of non-ASCII bytes (errors='ignore') and UTF-16 is not modelled: both sides report an opaque marker for such fields",
-               "Spec.compileDec / Spec.decOp are this framework's reading of what the database demands"]
+               "Spec.compileDec / Spec.decOp are this framework's reading of what the database demands",
+               "totality (in range => decodes): proved for integer resolutions with offsets (C01_number_total_int) and for decimal resolutions without offset (C01_number_total_float, every raw value, the binary64 tolerance test analysed exactly over the rationals; overflow to inf is not modelled); the one decimal-resolution field with an Offset (127513 peukertExponent, C01_db_float_offsets) and the non-NUMBER kinds rest on the database-only oracle"]
 TRUSTED_EXTRA = ["C01: T1 translator tools/translate_tables.py; validated end-to-end (Interp.runDec on the translated tables vs all 442 real decoders on boundary payloads)"]
 
 
